@@ -213,6 +213,24 @@ def loop_heads_applying(S, pred, exclude=("ui", "u")):
     return heads
 
 
+WCMH = "weak::Weak::<T>::weak_counter_marker"
+
+
+def is_self_record_opt(e):
+    """Does e denote `the side record of self, if there is one` (an Option): the result of Weak's private accessor, when the crate
+    has one, or the `metadata` field of self read directly."""
+    e = strip(e)
+    if isinstance(e, tuple) and e and e[0] == "ret" and e[1] == WCMH and fmt(strip(e[2][0])).lstrip("&*") == "self":
+        return True
+    return fmt(e).lstrip("&*") == "self.metadata"
+
+
+def within_self_record(e):
+    """Is e a place inside the side record of self (reached through the accessor's Some payload or through self.metadata)?"""
+    s = fmt(strip(e))
+    return "self.metadata" in s or "weak_counter_marker(self)" in s
+
+
 def applied_to_every_element(S, pred, exclude=("ui", "u")):
     """Is a node satisfying pred executed for every element of a list walk - as the body of a loop (loop_heads_applying) or as
     the closure of for_each/fold over an un-adapted `.iter()` (iteration_context)?"""
